@@ -18,11 +18,11 @@ ASSUME = ["bech32m / tagged hashes / tweak check as specified in spec/Bech32.tla
 O = lambda n: bytes([OP[n]])
 
 
-def run_tap(exe, args, ptys=False):
+def _run_tap(exe, args, ptys=False, env=None):
     if ptys:
-        r = ptydrv.run_cli([exe] + args, stdin_tty=True, stdout_tty=True, timeout=30)
+        r = ptydrv.run_cli([exe] + args, stdin_tty=True, stdout_tty=True, timeout=30, env=env)
     else:
-        r = ptydrv.run_cli([exe] + args, stdin_tty=True, timeout=30)
+        r = ptydrv.run_cli([exe] + args, stdin_tty=True, timeout=30, env=env)
     text = r["stdout"] + "\n" + r["stderr"]
     addr = re.search(r"Resulting Bech32m address: (\S+)", text)
     tx = re.search(r"Resulting transaction: ([0-9a-f]+)", text)
@@ -101,14 +101,25 @@ def run(chk):
                 scripts[q_] = O("NOP") * (total - len(tail)) + tail
         # address prefixes: the usual ones and others with the characters bech32 permits in a prefix (digits, punctuation)
         hrp = (["bcrt", "bc", "tb", "sb", "reg_test", "a^b", "tb2", "ltc-test", "x", "@[\\]_", "1a", "!~"] + ["bcrt"] * 8)[len(work) % 20]
-        work.append((n, idxs, kind, ikey, sec_int, leafsecs, scripts, hrp))
+        work.append((n, idxs, kind, ikey, sec_int, leafsecs, scripts, hrp, len(work)))
     recorded = []
     sessions = []
     def do(w):
-        n, idxs, kind, ikey, sec_int, leafsecs, scripts, hrp = w
+        n, idxs, kind, ikey, sec_int, leafsecs, scripts, hrp, wi = w
         lrng = __import__("random").Random(hash((n, tuple(idxs), kind)) & 0xffffffff)
         evs = []; sess = []
-        base = ["-p" + hrp, ikey.hex(), str(n)] + [s.hex() for s in scripts]
+        # how the hex arguments are spelled (lower / upper / mixed case: the same bytes), and which log areas the environment switches on or off
+        # (logging must not change any result); the events carry the canonical values
+        style = (0, 1, 2, 0, 3)[wi % 5]
+        def sp(h):
+            if style == 1: return h.upper()
+            if style == 2: return "".join(c.upper() if lrng.random() < 0.5 else c for c in h)
+            if style == 3: return "".join(c.upper() if i % 2 else c for i, c in enumerate(h))
+            return h
+        env = [None, {"DEBUG_SIGHASH": "1"}, {"DEBUG_SIGHASH": "1", "DEBUG_SIGNING": "0", "DEBUG_TAPROOT": "0", "DEBUG_SEGWIT": "0"}, {"DEBUG_SIGNING": "0"}][wi % 4]
+        def run_tap(exe_, args_, ptys=False):
+            return _run_tap(exe_, args_, ptys=ptys, env=env)
+        base = ["-p" + hrp, sp(ikey.hex()), str(n)] + [sp(s.hex()) for s in scripts]
         r0 = run_tap(tap, base)
         common = {"e": "Tap", "key": ikey.hex(), "scripts": [s.hex() for s in scripts], "hrp": hrp, "addr0": r0["addr"]}
         evs.append(dict(common, mode="fund", idx=-1, args=[], addr=r0["addr"], tx="", txin="", sighash="", sig="", code=r0["code"]))
@@ -124,13 +135,13 @@ def run(chk):
             outs[j] = btc.TxOut(amt, spk)
             funding = btc.Tx(version=2, vin=[btc.TxIn(bytes(lrng.randrange(256) for _ in range(32)), 0, b"", 0xffffffff)], vout=outs)
             tx = btc.Tx(version=2, vin=[btc.TxIn(funding.txid(), j, b"", 0xfffffffd)], vout=[btc.TxOut(amt - 500, b"\x00\x14" + bytes(20))], locktime=lrng.choice([0, 7]))
-            txargs = ["--tx=" + tx.hex(), "--txin=" + funding.hex()]
+            txargs = ["--tx=" + sp(tx.hex()), "--txin=" + sp(funding.hex())]
             is_sig_leaf = idx != "key" and scripts[idx][-1] == OP["CHECKSIG"]
             spendargs = [] if idx == "key" else [str(idx)]
             xargs = []
             if kind == "with-args" and idx != "key":
                 xargs = [(bytes([0x40 + idx]) * (3 + idx)).hex()]
-                spendargs = [str(idx), "0x" + xargs[0]]
+                spendargs = [str(idx), "0x" + sp(xargs[0])]
             # (b) spend mode without transactions: the address must not change
             if idx != "key":
                 r1 = run_tap(tap, base + spendargs)
@@ -159,7 +170,7 @@ def run(chk):
                     sig = btc.schnorr_sign(btc.taproot_tweak_seckey(sec_int, root), h)
                 else:
                     sig = btc.schnorr_sign(leafsecs[idx], h)
-                r3 = run_tap(tap, ["--sig=" + sig.hex()] + txargs + base + spendargs)
+                r3 = run_tap(tap, ["--sig=" + sp(sig.hex())] + txargs + base + spendargs)
                 evs.append(dict(common, mode=mode, idx=-1 if idx == "key" else idx, args=xargs, addr=r3["addr"], tx=r3["tx"], txin=funding.hex(), sighash="",
                                 sig=sig.hex(), code=r3["code"] if r3["tx"] else (r3["code"] or 1)))
                 if r3["tx"]:
